@@ -53,7 +53,10 @@ VALUES = [0, 1, 2, 3, -1, 2.5, 10, 42, 'a', True, None, 7]
 def wrap(formula, kind):
     expr = formula[1:]
     if kind == 'unknown':
-        return f'=NOSUCHFUNCTION({expr})', None
+        # reference = the formula without the unknown function: a dependant
+        # that returns a value although the site can not be calculated must
+        # at least not have used a made-up value for it
+        return f'=NOSUCHFUNCTION({expr})', formula
     if kind.startswith('after-error'):
         return f'=(1/0)+VFAIL(1,{expr})', f'=(1/0)+({expr})'
     return f'=VFAIL(1,{expr})', formula
@@ -222,7 +225,10 @@ def check_case(rec, spec, site, kind, iterative, steps):
                      f'at {F} {"fired" if fired else "persists"}')
                 return
             if kind == 'unknown' and state['overwritten'] is False and \
-                    addr in down:
+                    addr in members:
+                fail(f'fault-swallowed:{where}',
+                     f'evaluate({addr}) returned {got!r} although its '
+                     f'formula calls an unknown function')
                 return
             want = expected(addr)
             if isinstance(want, tuple) and want[:1] == ('raises',):
